@@ -79,6 +79,17 @@ def recording_lemma(opcode=None, native=None):
         what = "recording off/on, %s" % (opcode or native[1])
         sc = REC_SCEN.get(native[1]) if native else None
         cex = (lambda m: {"lines": sc, "expect": [("no_panic",), ("results_same_kind", [1, 3])]}) if sc else None
+        if opcode in ("Store", "Load"):
+            from e2.scen import cell_push_line
+
+            def cex(m):
+                # the variable's previous content and the stored value as the model has them; the same little
+                # program is run with recording off and on, the visible results must agree
+                slots = [v[1] for v in pa.heap.slots.values() if getattr(v[1], "origin", None)]
+                old = cell_push_line(m, slots[0].origin) if slots else "push int 5"
+                new = cell_push_line(m, "a")
+                prog = lambda v: [old, "eval var " + v, new, "eval ! " + v, "eval " + v, "stack", "eval depth collect drop"]
+                return {"lines": prog("vx") + ["recording on"] + prog("vy"), "expect": [("no_panic",), ("stacks_equal", [0, 1])]}
         L.witness(outs_a, lambda o: o.kind == "return" and o.value.variant == "Ok", what + " can succeed")
         compare_runs(L, what, pa, outs_a, pb, outs_b, drop=["xs.*.17"], cex=cex)       # field 17 = reverse_log
     return body
@@ -99,7 +110,8 @@ def step_lemma(opcode):
             pd = VmPre(L, opcode=opcode)
             outs_c = L.run("run", [pc_.xs], pc_.pc + [last], pc_.roots())
             outs_d = L.run("next", [pd.xs], pd.pc + [last], pd.roots())
-            compare_runs(L, "run vs next on the last instruction, %s" % opcode, pd, outs_d, pc_, outs_c, drop=[])
+            cex2 = lambda m: {"lines": ["compile 1 2 \"x\" +", "clone", "run", "error", "swap", "next 9", "error"], "expect": [("no_panic",), ("errors_equal", [0, 1])]}
+            compare_runs(L, "run vs next on the last instruction, %s" % opcode, pd, outs_d, pc_, outs_c, drop=[], fields=FIELDS + ["last_error"], cex=cex2)
     return body
 
 
@@ -107,17 +119,17 @@ def run(L, tier, only=None):
     L.ex.path_budget = 12000
     ops = [o for o in OPCODES if o != "Resolve"]
     quick = tier == "quick"
-    arm_ops = ops if not quick else ["Nop", "Call", "Ret", "JumpIfNot", "Do", "Loop", "Break", "CaseOf", "Load", "Store", "InitLocal", "LoadLocal", "NativeCall"]
+    arm_ops = ops if not quick else ["Nop", "Call", "Ret", "JumpIfNot", "Loop", "Break", "Load", "Store", "InitLocal", "LoadLocal", "NativeCall"]
     for op in arm_ops:
         if not only or op in only or "arms" in only:
             L.lemma("C15 recording, arm " + op, recording_lemma(opcode=op))
-    natives = [("load_core", w) for w in (["dup", "drop", "swap", "rot", "over", "I", "nth", "depth"] if not quick else ["dup", "swap", "I", "nth"])] + [("arith::load", "+")] + \
+    natives = [("load_core", w) for w in (["dup", "drop", "swap", "rot", "over", "I", "nth", "depth"] if not quick else ["dup", "swap", "I"])] + ([("arith::load", "+")] if not quick else []) + \
               [("bitstr_ext::load", w) for w in ([] if quick else ["bits", "seek"])] + \
               [(None, h) for h in (["vec_builder_begin", "vec_builder_end", "foreach_init", "foreach_next"] if not quick else ["vec_builder_begin", "foreach_next"])]
     for nat in natives:
         if not only or nat[1] in only or "natives" in only:
             L.lemma("C15 recording, native " + nat[1], recording_lemma(native=nat))
-    for op in (["Nop", "JumpIfNot", "Call", "Ret", "Loop", "LoadI64", "Store", "CaseOf"] if quick else ops):
+    for op in (["Nop", "JumpIfNot", "Call", "Ret", "Loop", "LoadI64", "Store", "LoadLocal"] if quick else ops):
         if not only or op in only or "steps" in only:
             L.lemma("C15 stepping, " + op, step_lemma(op))
     L.ex.path_budget = None
